@@ -4,12 +4,15 @@ Theorems about the model of DefraModel/Crdt/Model.lean (mirror of the repaired m
 What is proved here: the visible state of a document is independent of the ORDER in which the
 commits of a set are applied (given each is applied exactly once — that half is C02), the reported
 head set is determined by the SET of merged commits, and ties are broken deterministically.
-What ties the walk itself (`loadComposites`/`isMerged` collect exactly the unmerged ancestors) to
-this algebra is, so far, the per-step comparison mirror = canon(merged set) = implementation that
-`drv crdt` and the harness perform on every delivery (see `convergence_partial` below).
+The walk itself is tied to this algebra at the composite level by `same_merged_set_after_same_delivery`
+(from the end-to-end theorem of C02: a merge turns the merged set into the old one plus the delivered commit and
+its ancestors); the field level is tied by the per-step comparison mirror = canon(merged set) = implementation
+that `drv crdt` and the harness perform on every delivery (see `convergence_partial` below).
 -/
 import DefraModel.Proofs.CrdtFolds
 import DefraModel.Proofs.CrdtHeads
+import DefraModel.Proofs.CrdtMergeDocRefine
+import DefraModel.Props.C02
 namespace Defra.Props.C01
 open Defra Defra.Crdt
 
@@ -58,5 +61,20 @@ def bDel : Block := ⟨8, .comp, "d", 3, [1], [], .comp true⟩
 example : ([bNull, bStr, bCtr, bDel].foldl applyDelta {}).lww "name" = some (2, cborNil) := by decide
 example : ([bDel, bCtr, bStr, bNull].foldl applyDelta {}).lww "name" = some (2, cborNil) := by decide
 example : [bNull, bStr, bCtr, bDel].Perm [bDel, bCtr, bStr, bNull] := by decide
+
+/-- **The merged set after a delivery depends only on the merged set before and on the commit.** Two replicas whose
+    document has the same merged set (their heads may be listed differently) and that merge the same commit have the
+    same merged set afterwards — and by `heads_determined` then report the same heads. For every well-formed store. -/
+theorem same_merged_set_after_same_delivery (cx : Ctx) (hwf : wfCheck cx.blocks = true)
+    (hknown : ∀ l, (cx.blocks.get? l).isSome = true → cx.known l = true)
+    (r₁ r₂ : Replica) (c : Block) (hc : cx.blocks.get? c.id = some c) (hck : c.kind = .comp)
+    (h₁ : headsCheck cx.blocks (r₁.doc c.doc).heads = true) (h₂ : headsCheck cx.blocks (r₂.doc c.doc).heads = true)
+    (same : ∀ t, Reach cx.blocks (r₁.doc c.doc).heads t ↔ Reach cx.blocks (r₂.doc c.doc).heads t) (t : Nat) :
+    Reach cx.blocks ((mergeDoc cx r₁ c).doc c.doc).heads t ↔ Reach cx.blocks ((mergeDoc cx r₂ c).doc c.doc).heads t := by
+  obtain ⟨_, _, _, _, _, a, _⟩ :=
+    Props.C02.merge_applies_exactly_the_unmerged_ancestors_once cx hwf hknown r₁ c hc hck h₁
+  obtain ⟨_, _, _, _, _, b, _⟩ :=
+    Props.C02.merge_applies_exactly_the_unmerged_ancestors_once cx hwf hknown r₂ c hc hck h₂
+  rw [a t, b t, same t]
 
 end Defra.Props.C01
